@@ -41,7 +41,9 @@ Step(ev) ==
     [] ev.a = "addbad"   -> NAddBad
     [] ev.a = "addfile"  -> NAddFile
     [] ev.a = "direct"   -> NDirect /\ ev.arg.tok = NewTok
-    [] ev.a = "send"     -> IF Known(ev.arg.i) /\ ~eof[ev.arg.i] THEN NSend(ev.arg.i, ev.arg.data) ELSE NQuiet("send", ev.arg)
+    \* whether the kernel took the peer's bytes is the environment's answer (recorded)
+    [] ev.a = "send"     -> IF Known(ev.arg.i) /\ ~eof[ev.arg.i] /\ ev.obs.ret = "ok"
+                            THEN NSend(ev.arg.i, ev.arg.data) ELSE NQuiet("send", ev.arg)
     [] ev.a = "shut"     -> IF Known(ev.arg.i) /\ ~eof[ev.arg.i] THEN NShut(ev.arg.i, ev.arg.how) ELSE NQuiet("shut", ev.arg)
     \* whether the kernel took the connection is the environment's answer (recorded)
     [] ev.a = "conn"     -> IF Known(ev.arg.i) /\ ev.obs.ret = "ok" THEN NConn(ev.arg.i) ELSE NQuiet("conn", ev.arg)
